@@ -332,6 +332,9 @@ impl<'a> LoweringManager<'a> {
           let call = if vec_returns_element {
             if return_type.is_int32() {
               wasm::InlineInstruction::DirectCall(mir::FunctionName::UNWRAP_I31, vec![call])
+            } else if matches!(return_type, lir::Type::AnyPointer) {
+              // An element type erased to (ref eq) is exactly what Vec.pop / Vec.get return.
+              call
             } else {
               wasm::InlineInstruction::Cast {
                 pointer_type: return_type.clone(),
